@@ -331,6 +331,9 @@ type ChunkSpan struct {
 
 // EncodeSigned renders a STREAMING-AWS4-HMAC-SHA256-PAYLOAD[-TRAILER] body.
 // trailerAlgo "" ⇒ no trailer.
+// SizeDigits is the minimum number of hex digits the encoders write for a chunk size (leading zeros are legal).
+var SizeDigits = 1
+
 func EncodeSigned(s Signed, chunks [][]byte, trailerAlgo string) ([]byte, []ChunkSpan) {
 	var b bytes.Buffer
 	var spans []ChunkSpan
@@ -342,7 +345,7 @@ func EncodeSigned(s Signed, chunks [][]byte, trailerAlgo string) ([]byte, []Chun
 		sig := hex.EncodeToString(hmac256(s.Key, []byte(sts)))
 		prev = sig
 		sp := ChunkSpan{HeaderStart: b.Len()}
-		fmt.Fprintf(&b, "%x;chunk-signature=%s\r\n", len(data), sig)
+		fmt.Fprintf(&b, "%0*x;chunk-signature=%s\r\n", SizeDigits, len(data), sig)
 		sp.DataStart = b.Len()
 		b.Write(data)
 		sp.DataEnd = b.Len()
@@ -376,7 +379,7 @@ func EncodeUnsigned(chunks [][]byte, trailerAlgo string) ([]byte, []ChunkSpan) {
 	var all []byte
 	for _, c := range chunks {
 		sp := ChunkSpan{HeaderStart: b.Len()}
-		fmt.Fprintf(&b, "%x\r\n", len(c))
+		fmt.Fprintf(&b, "%0*x\r\n", SizeDigits, len(c))
 		sp.DataStart = b.Len()
 		b.Write(c)
 		sp.DataEnd = b.Len()
